@@ -66,7 +66,10 @@ def payload(draw, max_sigs=12, allow_big=False, min_sigs=1, allow_medium=False, 
 	comp = draw(st.sampled_from([None, 'gzip', 'lzf', None, 'gzip']))
 	copts = draw(st.integers(0, 9)) if comp == 'gzip' and draw(st.booleans()) else None
 	return {'k': k, 'prefix': prefix, 'sigs': sigs, 'container': container, 'idkind': idkind, 'ids': ids, 'meta': meta,
-	        'compression': comp, 'compression_opts': copts, 'dtype': dtype, 'ids_as': draw(st.sampled_from(['list', 'tuple', 'object', 'U']))}
+	        'compression': comp, 'compression_opts': copts, 'dtype': dtype, 'ids_as': draw(st.sampled_from(['list', 'tuple', 'object', 'U'])),
+	        # how the collection handed to the writer is composed: directly, as a wrapper around another annotated wrapper
+	        # (re-labelled collection: the OUTER ids / metadata count), or as a collection loaded from another signature file
+	        'wrap': draw(st.sampled_from([None, None, 'nested', None, 'hdf5_source']))}
 
 
 def build_arrays(np, p):
@@ -105,14 +108,32 @@ def build_arrays(np, p):
 	return spec, arrays
 
 
-def build(np, p):
-	"""Returns (object to dump, spec, arrays, expected ids (list or ndarray), expected meta dict)."""
+def build(np, p, src_path=None):
+	"""Returns (object to dump, spec, arrays, expected ids (list or ndarray), expected meta dict).
+
+	With p['wrap'] == 'hdf5_source' and a src_path, the collection is first written to src_path and the object returned is the
+	HDF5Signatures loaded from it (the caller closes it)."""
+	obj, spec, arrays, exp_ids, exp_meta = _build(np, p)
+	if p.get('wrap') == 'hdf5_source' and src_path is not None:
+		from gambit.sigs.base import dump_signatures, load_signatures
+		dump_signatures(src_path, obj)
+		obj = load_signatures(src_path)
+	return obj, spec, arrays, exp_ids, exp_meta
+
+
+def _build(np, p):
 	from gambit.sigs.base import SignatureArray, SignatureList, AnnotatedSignatures, SignaturesMeta
 	spec, arrays = build_arrays(np, p)
 	dt = np.dtype(p['dtype']) if p.get('dtype') else spec.index_dtype
 	base = SignatureArray(arrays, spec, dtype=dt) if p['container'].endswith('array') else SignatureList(arrays, spec, dtype=dt)
 	n = len(arrays)
 	default_meta = {'id': None, 'name': None, 'version': None, 'id_attr': None, 'description': None, 'extra': {}}
+	if p.get('wrap') == 'nested':
+		# an already annotated collection that is annotated again: the inner labels and metadata are not the ones to be stored
+		base = AnnotatedSignatures(base, [f'inner-{i}' for i in range(n)] if n % 2 else np.arange(1000, 1000 + n),
+		                           SignaturesMeta(id='INNER', name='inner collection', version='0', id_attr='refseq_acc', description='inner', extra={'inner': True}))
+		if not p['container'].startswith('annot'):
+			return AnnotatedSignatures(base), spec, arrays, ('int', list(range(n))), default_meta
 	if not p['container'].startswith('annot'):
 		return base, spec, arrays, ('int', list(range(n))), default_meta
 	if p['idkind'] == 'str':
